@@ -65,6 +65,7 @@ def variants(algo, tier):
         out.append(("all-inner1", {"init": "svd", "non_negative": True, "n_iter_max_inner": 1}))
         out.append(("einsum-dict-0-last", {"init": "svd", "non_negative": "DICT:0,LAST", "tenalg": "einsum"}))
         out.append(("class-dict-0-last", {"init": "random", "non_negative": "DICT:0,LAST", "api": "class"}))
+        out.append(("dict-0-negative-key", {"init": "svd", "non_negative": "DICT:0,NEG1"}))  # {0: True, -1: True}: Python indexing, the last mode
     elif algo == "parafac2-linesearch-seam":
         # the accepted extrapolated step of PARAFAC2's line search, driven directly (narrowest seam): every subset of declared modes
         for nn in ([0], [2], [0, 2], [0, 1], [1, 2], [0, 1, 2], [2, 0]):
@@ -127,7 +128,7 @@ def declared_modes(algo, cfg, ndim):
         return list(range(ndim)), False, True
     if algo == "constrained_parafac":
         nn = cfg.get("non_negative")
-        return (list(range(ndim)) if nn is True else sorted(nn)), False, False
+        return (list(range(ndim)) if nn is True else sorted({m % ndim for m in nn})), False, False
     if algo == "parafac2":
         nn = cfg.get("nn_modes")
         modes = [0, 2] if nn == "all" else [m for m in nn if m != 1]
@@ -228,7 +229,7 @@ class C10(Check):
             elif isinstance(v, str) and v.startswith("MODES:"):
                 v = sorted({(ndim - 1 if t == "LAST" else int(t)) for t in v.split(":")[1].split(",")})
             elif isinstance(v, str) and v.startswith("DICT:"):
-                v = {(ndim - 1 if t == "LAST" else int(t)): True for t in v.split(":")[1].split(",")}
+                v = {(ndim - 1 if t == "LAST" else (-1 if t == "NEG1" else int(t))): True for t in v.split(":")[1].split(",")}
             elif isinstance(v, dict):
                 v = {int(a): b for a, b in v.items()}
             cfg[k] = v
